@@ -162,6 +162,7 @@ def run_case(REG, case, rnd):
 
 
 def _run_case(REG, case, rnd, env):
+    M.CONCRETE = True          # products are real products when contracts are evaluated on concrete states
     c = REG[case.contract]
     objs = case.managers(env) if case.managers else {'self': env['b']}
     b = objs[case.primary]
